@@ -226,6 +226,11 @@ theorem clean_of_plain {env : Env} {H p q : Str} (hH : PlainHost env H) (n : Nat
     · simp [(ht.pathNo c hc).2.2]
     · simp [(ht.queryNo c hc).2]
 
+theorem rebracket_plain {H : Str} (h : ':' ∉ H) : rebracket H = H := by
+  unfold rebracket
+  rw [if_neg]
+  simpa using h
+
 theorem unsplit_assemble {nl p q : Str} (hnl : nl ≠ []) (hp : p.head? = some '/') :
     unsplit gemini nl p q [] = assemble nl p q := by
   have h1 : nl.isEmpty = false := by cases nl with | nil => exact absurd rfl hnl | cons _ _ => rfl
@@ -269,6 +274,7 @@ theorem parse_canonical (env : Env) {H p q : Str} (hH : PlainHost env H) (n : Na
   have hport : (if n ≠ 1965 then some n else none : Option Nat).getD 1965 = n := by
     by_cases h : n = 1965 <;> simp [h]
   simp only [hport, hpne, Bool.false_eq_true, ↓reduceIte]
+  rw [rebracket_plain (fun h => (hH.chars _ h).2.2.1 rfl)]
   have hauth : (if n ≠ 1965 then H ++ [':'] ++ natToStr n else H) = authorityOf H n := rfl
   rw [hauth]
   have := unsplit_assemble (q := q) hnl ht.slash
